@@ -387,6 +387,13 @@ func parseRDNSS(d rawRDNSS, maxInterval time.Duration) (*plugin.RDNSS, error) {
 			return nil, fmt.Errorf("string %q is not an IPv6 address", s)
 		}
 
+		// A zone is not part of the address on the wire. With a zone, "::%eth0"
+		// is not recognized as the wildcard and would be advertised as ::, and
+		// "fe80::1" and "fe80::1%eth0" are advertised as the same server twice.
+		if ip.Zone() != "" {
+			return nil, fmt.Errorf("server %q must not have a zone", s)
+		}
+
 		// If :: is present, don't add it to the slice but do set Auto to true
 		// so a server address can be automatically chosen at runtime. The
 		// remaining server addresses will be set statically.
